@@ -278,9 +278,12 @@ def check_mask(obs, model, ems, mask, s0, b, g, gcls):
         if 'face_edge' in model.encoding['supplied']:
             fe = model.s_face_edges
         else:
-            en = obs.call('edge_node_array', lambda: rows_of(ems.topology.edge_node_array))
-            if isinstance(en, Failed):
-                return None
+            if 'edge_node' in model.encoding['supplied']:
+                en = [list(r) for r in model.s_edges]              # the file's own edge numbering is the one that counts
+            else:
+                en = obs.call('edge_node_array', lambda: rows_of(ems.topology.edge_node_array))
+                if isinstance(en, Failed):
+                    return None
             number = {frozenset(r): i for i, r in enumerate(en)}
             fe = [[number[frozenset(p)] for p in mesh.pairs(fc)] for fc in mesh.faces]
         kept_edges = {ed for fidx in keep for ed in fe[fidx]}
